@@ -129,10 +129,17 @@ def known_findings(prop):
 # --------------------------------------------------------------------------------------
 # shard execution
 
-def _worker_run(modname, shard, deadline):
+def _worker_run(modname, shard, deadline, cover=False):
     try:
         mod = importlib.import_module(modname)
-        acc = mod.run_shard(shard, deadline)
+        if cover:
+            from . import monitors
+            with monitors.FunctionCoverage(repo_dir()) as fc:
+                acc = mod.run_shard(shard, deadline)
+            for name in fc.seen:
+                see(acc, 'target_functions_entered', name)
+        else:
+            acc = mod.run_shard(shard, deadline)
         return ('ok', acc)
     except BaseException:  # noqa - a crashing shard must surface as inconclusive, never as held
         return ('crash', traceback.format_exc())
@@ -168,7 +175,8 @@ def run_shards(modname, shards, budget_s, workers=NCPU, need_asm=True):
         return out
     try:
         with cf.ProcessPoolExecutor(max_workers=workers, initializer=_worker_init if need_asm else None) as ex:
-            futs = [ex.submit(_worker_run, modname, sh, deadline) for sh in shards]
+            # every 7th shard also records which functions of the target it entered (P8, evidence only)
+            futs = [ex.submit(_worker_run, modname, sh, deadline, i % 7 == 0) for i, sh in enumerate(shards)]
             pending = set(futs)
             while pending:
                 done, pending = cf.wait(pending, timeout=max(1.0, hard - time.time()),
@@ -255,7 +263,7 @@ def conclude(mod, out, tier, seed, t0, extra_cov=None, exhaustive=False):
         'samples': _jsonable(acc['samples']) or ['(none)'],
         'exhaustive': bool(exhaustive and not acc['truncated'] and not gates),
         'counters': {k: acc['ctr'][k] for k in sorted(acc['ctr'])},
-        'observed_sets': {k: (sorted(map(str, v)) if len(v) <= 140 else {'count': len(v)}) for k, v in sorted(acc['seen'].items())},
+        'observed_sets': {k: (sorted(map(str, v)) if len(v) <= 200 else {'count': len(v)}) for k, v in sorted(acc['seen'].items())},
         'shards_truncated_by_time': acc['truncated'],
         'gates_failed': gates,
         'known_finding_witnesses': dict(known_hits),
